@@ -48,8 +48,10 @@ static int gw_max_reports = 12;
 static int gw_samples_left = 3;
 
 /* the driver implements these */
-static int gw_run(const int *prog, int n);                 /* 0 = ok, 1 = mismatch (already reported), 2 = pruned (known) */
+static int gw_run(const int *prog, int n);                 /* 0 = ok, 1 = mismatch (already reported), 3 = inconclusive */
 static int gw_is_nontrivial(const int *prog, int n);
+static int gw_is_observer(const gw_edge *e);               /* pure query: executed at every node, never extends a path */
+static int gw_obs_mode;                                    /* 1 while enumerating paths: observers run at each node */
 
 static int gw_cmp_edge(const void *a, const void *b) {
     const gw_edge *x = a, *y = b;
@@ -239,16 +241,22 @@ static void gw_dfs(int st, int *prog, int depth, int D, uint64_t budget) {
         if (depth > 0) gw_exec(prog, depth);
         return;
     }
+    int ext = 0;
     for (int k = 0; k < s->nedges; k++) {
+        if (gw_is_observer(&gw_edges[s->first + k])) continue;
+        ext++;
         prog[depth] = s->first + k;
         gw_dfs(gw_edges[s->first + k].dst, prog, depth + 1, D, budget);
     }
+    if (!ext && depth > 0) gw_exec(prog, depth);
 }
 
 static int gw_paths(int D, uint64_t budget) {
     int *prog = calloc(D + 1, sizeof(int));
     uint64_t before = gw_programs;
+    gw_obs_mode = 1;
     for (int i = 0; i < gw_ninit; i++) gw_dfs(gw_inits[i], prog, 0, D, budget);
+    gw_obs_mode = 0;
     free(prog);
     return gw_programs - before < budget;   /* 1 = enumeration complete */
 }
@@ -312,6 +320,64 @@ static void gw_print_stats(int complete) {
            (unsigned long long)gw_edges_covered, gw_nstates, complete ? "true" : "false");
     fflush(stdout);
 }
+
+#ifdef GW_SIMPLE_RUNNER
+/* Shared stepping loop for sequential-object drivers.  The driver provides:
+ *   gw_begin()                         fresh implementation object(s)
+ *   gw_step(e, obs, proj, n)           execute spec action e on the implementation; render outputs and projection
+ *   gw_end(leakmsg, n)                 teardown; returns non-zero and fills leakmsg if something is left over
+ *   gw_sig(prog, i, e, ok_obs, sig, n) signature of a mismatch (stable, input-specific)
+ *   gw_choice_fixed(e)                 -1, or the number of leading args that are NOT a library choice        */
+static void gw_begin(void);
+static void gw_step(const gw_edge *e, char *obs, char *proj, size_t n);
+static int gw_end(char *msg, size_t n);
+static void gw_sig(const int *prog, int i, const gw_edge *e, int ok_obs, char *sig, size_t n);
+static int gw_choice_fixed(const gw_edge *e);
+
+static int gw_check_step(const int *prog, int n, int i, int eid) {
+    char obs[1024], proj[2048];
+    gw_edge *e = &gw_edges[eid];
+    gw_state *d = &gw_states[e->dst];
+    gw_step(e, obs, proj, sizeof obs);
+    gw_steps++;
+    int ok_obs = !strcmp(obs, d->obs), ok_proj = !strcmp(proj, d->proj);
+    if (ok_obs && ok_proj) return 0;
+    int fixed = gw_choice_fixed(e);
+    if (fixed >= 0 && gw_sibling_matches(eid, fixed, obs, proj)) return 3;
+    char sig[160];
+    gw_sig(prog, i, e, ok_obs, sig, sizeof sig);
+    char lab[256];
+    gw_fmt_edge(lab, sizeof lab, eid);
+    gw_mismatch(prog, n, i, sig, "at %s%s: expected obs=%s proj=%s ; got obs=%s proj=%s", lab,
+                (gw_obs_mode && gw_is_observer(e)) ? " (observer run at this node)" : "", d->obs, d->proj, obs, proj);
+    return 1;
+}
+
+static int gw_run(const int *prog, int n) {
+    gw_begin();
+    int rc = 0;
+    gw_steps -= n;   /* counted per executed step below */
+    for (int i = 0; i < n && !rc; i++) {
+        gw_cur_step = i;
+        rc = gw_check_step(prog, n, i, prog[i]);
+        if (rc || !gw_obs_mode) continue;
+        gw_state *s = &gw_states[gw_edges[prog[i]].dst];
+        for (int k = 0; k < s->nedges && !rc; k++)
+            if (gw_is_observer(&gw_edges[s->first + k])) {
+                if (!gw_edge_seen[s->first + k]) { gw_edge_seen[s->first + k] = 1; gw_edges_covered++; }
+                rc = gw_check_step(prog, n, i, s->first + k);
+                if (rc == 3) rc = 0;
+            }
+    }
+    gw_cur_step = n;
+    char msg[256];
+    if (gw_end(msg, sizeof msg) && rc == 0) {
+        gw_mismatch(prog, n, n - 1, "leak", "%s", msg);
+        rc = 1;
+    }
+    return rc;
+}
+#endif
 
 /* standard CLI:  <table> <replaydir> <tag> <D> <budget> <walks> <walklen> <seed> */
 static int gw_main(int argc, char **argv) {
